@@ -2,7 +2,7 @@
 //! real half objects, closed-loop search, and chunking equivalence from every reachable state.
 
 use crate::common::*;
-use mc::bfs::bfs;
+use mc::bfs::bfs_by_key;
 use mc::report::{Report, Tier, Violation};
 use rayon::prelude::*;
 use refmodel::cipher::{dec_step, enc_step};
@@ -105,13 +105,14 @@ fn explore_key<F: Family>(report: &Report, key: &[u8; 40], spec_mut: &[AtomicU64
     let mut local_mut = [0u64; 3];
 
     // encrypter machine: state = (real object, reference position, reference previous byte)
-    let r = bfs(vec![(e0.clone(), 0u8, 0u8)], &actions, None, |s, a| {
+    let merged_behaviourally = std::cell::Cell::new(0u64);
+    let r = bfs_by_key(vec![(e0.clone(), 0u8, 0u8)], &actions, None, |s| (s.1, s.2), |o, n| o.0 == n.0 || { merged_behaviourally.set(merged_behaviourally.get() + 1); crate::ciphers::same_future(&o.0, &n.0, 3 * klen, |x, d| F::enc(x, d)) }, |s, a| {
         let (obj, pos, prev) = s;
         let mut o = obj.clone();
         match a {
             Act::Empty => {
                 F::enc(&mut o, &mut []);
-                if o != *obj {
+                if o != *obj && !crate::ciphers::same_future(&o, obj, 3 * klen, |x, d| F::enc(x, d)) {
                     return Err(format!("zero-length encrypt changed the object at ref state pos={pos} prev={prev}"));
                 }
                 Ok(Some((o, *pos, *prev)))
@@ -160,13 +161,13 @@ fn explore_key<F: Family>(report: &Report, key: &[u8; 40], spec_mut: &[AtomicU64
     }
 
     // decrypter machine
-    let r = bfs(vec![(d0.clone(), 0u8, 0u8)], &actions, None, |s, a| {
+    let r = bfs_by_key(vec![(d0.clone(), 0u8, 0u8)], &actions, None, |s| (s.1, s.2), |o, n| o.0 == n.0 || { merged_behaviourally.set(merged_behaviourally.get() + 1); crate::ciphers::same_future(&o.0, &n.0, 3 * klen, |x, d| F::dec(x, d)) }, |s, a| {
         let (obj, pos, prev) = s;
         let mut o = obj.clone();
         match a {
             Act::Empty => {
                 F::dec(&mut o, &mut []);
-                if o != *obj {
+                if o != *obj && !crate::ciphers::same_future(&o, obj, 3 * klen, |x, d| F::dec(x, d)) {
                     return Err(format!("zero-length decrypt changed the object at ref state pos={pos} prev={prev}"));
                 }
                 Ok(Some((o, *pos, *prev)))
@@ -198,7 +199,7 @@ fn explore_key<F: Family>(report: &Report, key: &[u8; 40], spec_mut: &[AtomicU64
 
     // closed loop: (sender's encrypter, receiver's decrypter), action = send byte x, invariant: receiver gets x
     let bytes: Vec<Act> = (0..=255u8).map(Act::Byte).collect();
-    let r = bfs(vec![(e0.clone(), d0.clone(), 0u8, 0u8)], &bytes, None, |s, a| {
+    let r = bfs_by_key(vec![(e0.clone(), d0.clone(), 0u8, 0u8)], &bytes, None, |s| (s.2, s.3), |o, n| (o.0 == n.0 && o.1 == n.1) || { merged_behaviourally.set(merged_behaviourally.get() + 1); crate::ciphers::same_future(&o.0, &n.0, 3 * klen, |x, d| F::enc(x, d)) && crate::ciphers::same_future(&o.1, &n.1, 3 * klen, |x, d| F::dec(x, d)) }, |s, a| {
         let (e, d, pos, prev) = s;
         let (mut e, mut d) = (e.clone(), d.clone());
         let x = match a {
@@ -227,6 +228,7 @@ fn explore_key<F: Family>(report: &Report, key: &[u8; 40], spec_mut: &[AtomicU64
     for i in 0..3 {
         spec_mut[i].fetch_add(local_mut[i], Ordering::Relaxed);
     }
+    report.count("states_merged_by_behaviour_not_identity", merged_behaviourally.get());
     let enc_states: Vec<(F::Enc, u8, u8)> = r.all_states.iter().map(|(e, _, p, v)| (e.clone(), *p, *v)).collect();
     let dec_states: Vec<(F::Dec, u8, u8)> = r.all_states.iter().map(|(_, d, p, v)| (d.clone(), *p, *v)).collect();
     Some(KeyResult { enc_states, dec_states })
@@ -459,6 +461,43 @@ pub fn run<F: Family>(tier: Tier, seed: u64) -> i32 {
             }
         }
     });
+    // long-stream walk (beyond what the fixpoint argument needs): any hidden byte counter narrower than the walk wraps
+    let walk_total: u64 = tier.pick(1u64 << 24, (1u64 << 32) + (1 << 20));
+    let walk_keys: Vec<[u8; 40]> = keys.iter().take(tier.pick(2, 1)).cloned().collect();
+    let walk_bytes = AtomicU64::new(0);
+    let jobs: Vec<(usize, bool)> = (0..walk_keys.len()).flat_map(|k| [(k, true), (k, false)]).collect();
+    jobs.par_iter().for_each(|&(ki, enc_dir)| {
+        let key = &walk_keys[ki];
+        let rk = F::ref_key(key);
+        let (mut e, mut d) = F::make(key);
+        let mut rm = refmodel::cipher::Recurrence { key: rk.clone(), n: 0, prev: 0 };
+        let sizes = [1usize << 16, 4096, 65_537, 1, 6, 1 << 20, 255, 40];
+        let mut done = 0u64;
+        let mut i = 0usize;
+        while done < walk_total {
+            let l = sizes[i % sizes.len()];
+            i += 1;
+            let data: Vec<u8> = (0..l).map(|j| ((done as usize + j) as u8).wrapping_mul(13) ^ 0x5A).collect();
+            let mut a = data.clone();
+            let mut w = data.clone();
+            if enc_dir {
+                F::enc(&mut e, &mut a);
+                rm.enc(&mut w);
+            } else {
+                F::dec(&mut d, &mut a);
+                rm.dec(&mut w);
+            }
+            rm.n %= rk.len();
+            if a != w {
+                viol::<F>(&report, if enc_dir { "long-stream-encrypt" } else { "long-stream-decrypt" }, "recurrence", key, json!({"stream_offset": done, "call_len": l}), format!("output diverges from the recurrence in the call starting at stream offset {done}"));
+                return;
+            }
+            done += l as u64;
+        }
+        walk_bytes.fetch_add(done, Ordering::Relaxed);
+    });
+    report.count("long_stream_walk_bytes", walk_bytes.load(Ordering::Relaxed));
+    report.space(&format!("long-stream walk of {walk_total} bytes per direction for {} key(s) with call sizes {{1,6,40,255,4096,65536,65537,1048576}}", walk_keys.len()));
     let pairs: u64 = pair_seen.iter().map(|r| r.iter().filter(|b| b.load(Ordering::Relaxed)).count() as u64).sum();
     report.count("position_keybyte_pairs_covered", pairs);
     report.set("position_keybyte_pairs_total", json!(klen * 256));
@@ -469,7 +508,7 @@ pub fn run<F: Family>(tier: Tier, seed: u64) -> i32 {
     report.set("traces_validated_against_impl", json!(t));
     report.set("evaluations", json!(t + report.get("chunk_whole_vs_bytewise_cases") + report.get("chunk_composition_cases")));
     report.set("distinct_nontrivial", json!(report.get("states")));
-    report.set("rule", json!("explicit-state BFS keyed on the real half objects (+ reference position/previous byte); every transition executes the real encrypt/decrypt with one input byte (or a zero-length call) and is compared with the reference recurrence; distinct_nontrivial = distinct reachable states visited (all non-trivial: each is a distinct cipher state)"));
+    report.set("rule", json!("explicit-state BFS over the real half objects, visited set keyed on the reference state (position, previous byte); when two paths reach the same reference state the real objects must be identical (derived ==) or, failing that, behave identically over a 3-key-length look-ahead (counted in states_merged_by_behaviour_not_identity; 0 means every merge was exact); every transition executes the real encrypt/decrypt with one input byte (or a zero-length call) and is compared with the reference recurrence; distinct_nontrivial = distinct reachable states visited (all non-trivial: each is a distinct cipher state)"));
     for (i, name) in ["key-index-off-by-one", "or-instead-of-add", "no-chaining"].iter().enumerate() {
         let d = spec_mut[i].load(Ordering::Relaxed);
         report.set(&format!("spec_mutant_{name}_disagreements"), json!(d));
